@@ -14,6 +14,13 @@ for f in os.listdir(src):
     shutil.copy(os.path.join(src, f), dst)
     if f.endswith("_test.go"):
         files[f] = os.path.join(pkg, "zz_" + f)
+if run == "AUTO":
+    import re
+    names = []
+    for f in files:
+        names += re.findall(r'^func (Test\w+)\(', open(os.path.join(src, f)).read(), re.M)
+    assert names, "no Test functions found"
+    run = "^(" + "|".join(names) + ")$"
 notes = open(os.path.join(src, "NOTES.md")).read() if os.path.exists(os.path.join(src, "NOTES.md")) else ""
 meta = {"id": sid, "property": prop, "checks": checks, "origin": "independent red-team sub-agent given only the property text and its own worktree",
         "needs": notes.strip().split("\n\n")[0][:600],
